@@ -677,6 +677,8 @@ fn pick_base(rng: &mut Rng, structured: bool) -> Result<gen::GenModule, String> 
     cfg.max_funcs = 4;
     cfg.max_stmts = if structured { 14 } else { 10 };
     cfg.customs = false;
+    // functions are identified by position here: half of the bases have no fingerprint prefix, so that a body can start with a construct
+    cfg.no_fingerprint = rng.bool();
     gen::generate_valid(rng, prof, &cfg).map(|(g, _)| g)
 }
 
